@@ -316,6 +316,9 @@ func sliceLenLB(b *ssa.BasicBlock, base ssa.Value) (int64, string) {
 			lb, why = n, w
 		}
 	}
+	if n, w := calleeLenLB(b, base, 0); n > lb {
+		lb, why = n, w
+	}
 	return lb, why
 }
 
@@ -359,4 +362,63 @@ func installRegexpResolver(p *core.Program) {
 		}
 		return cache[g]
 	}
+}
+
+// calleeLenLB: base is (a component of) the result of a call to a module function with a body: the minimum, over the
+// callee's returns, of what is established for the returned value there — a length test on the path to the return,
+// a producer of known length, or, when a parameter is returned as is, the bound of the argument at this call.
+var calleeLBDepth int
+
+func calleeLenLB(b *ssa.BasicBlock, base ssa.Value, depth int) (int64, string) {
+	if calleeLBDepth >= 2 {
+		return 0, ""
+	}
+	calleeLBDepth++
+	defer func() { calleeLBDepth-- }()
+	v := core.StripConv(base)
+	idx := 0
+	if ex, ok := v.(*ssa.Extract); ok {
+		idx = ex.Index
+		v = ex.Tuple
+	}
+	call, ok := v.(*ssa.Call)
+	if !ok {
+		return 0, ""
+	}
+	g := call.Call.StaticCallee()
+	if g == nil || g.Blocks == nil || !core.InModule(core.FuncPkgPath(g)) {
+		return 0, ""
+	}
+	best := int64(-1)
+	for _, gb := range g.Blocks {
+		ret, ok := gb.Instrs[len(gb.Instrs)-1].(*ssa.Return)
+		if !ok {
+			continue
+		}
+		if idx >= len(ret.Results) {
+			return 0, ""
+		}
+		rv := core.StripConv(ret.Results[idx])
+		var n int64
+		if prm, ok := rv.(*ssa.Parameter); ok {
+			for i, fp := range g.Params {
+				if fp == prm && i < len(call.Call.Args) {
+					n, _ = sliceLenLBDepth(b, call.Call.Args[i], depth+1)
+				}
+			}
+		} else {
+			n, _ = sliceLenLBDepth(gb, rv, depth+1)
+		}
+		if best < 0 || n < best {
+			best = n
+		}
+	}
+	if best <= 0 {
+		return 0, ""
+	}
+	return best, fmt.Sprintf("every return of %s yields at least %d element(s)", g.Name(), best)
+}
+
+func sliceLenLBDepth(b *ssa.BasicBlock, base ssa.Value, depth int) (int64, string) {
+	return sliceLenLB(b, base)
 }
